@@ -81,3 +81,105 @@ def fit_arrays(info):
                 name=[str(n).strip() for n in info.model_name],
                 model_id=[int(i) for i in info.model_id],
                 model_fluxes=None if info.model_fluxes is None else np.asarray(info.model_fluxes, dtype=float))
+
+
+# ----------------------------------------------------------------------------- full packages (SEDs)
+
+def make_sed(name, wav_um, flux, err, apertures_au=None, distance_kpc=1., unit=None):
+    """SED object; flux/err: (n_ap, n_wav) arrays in `unit` (default mJy); wav in the order given"""
+    from sedfitter.sed import SED
+    unit = unit or u.mJy
+    s = SED()
+    s.name = name
+    s.distance = distance_kpc * u.kpc
+    s.wav = np.array(wav_um, dtype=float) * u.micron
+    s.nu = s.wav.to(u.Hz, equivalencies=u.spectral())
+    if apertures_au is not None:
+        s.apertures = np.array(apertures_au, dtype=float) * u.au
+    s.flux = np.array(flux, dtype=float).reshape(1 if apertures_au is None else len(apertures_au), -1) * unit
+    s.error = np.array(err, dtype=float).reshape(s.flux.shape) * unit
+    return s
+
+
+def write_sed_package(model_dir, names, wav_um, flux, err, apertures_au=None, table_order=None,
+                      params=None, aperture_dependent=None, logd_step=0.02, file_names=None, unit=None):
+    """per-file (version 1) package: seds/<name>_sed.fits + parameters.fits + models.conf.
+    flux, err: (n_models, n_ap, n_wav); table_order: row order of parameters.fits (list of names);
+    file_names: optional dict name -> file stem (to decouple directory-listing order from names)"""
+    os.makedirs(os.path.join(model_dir, 'seds'), exist_ok=True)
+    if aperture_dependent is None:
+        aperture_dependent = apertures_au is not None and len(apertures_au) > 1
+    write_conf(model_dir, aperture_dependent, logd_step=logd_step, version=1)
+    flux = np.array(flux, dtype=float)
+    err = np.array(err, dtype=float)
+    for i, n in enumerate(names):
+        s = make_sed(n, wav_um, flux[i], err[i], apertures_au, unit=unit)
+        stem = (file_names or {}).get(n, n + '_sed')
+        s.write(os.path.join(model_dir, 'seds', stem + '.fits'), overwrite=True)
+    order = list(table_order) if table_order is not None else list(names)
+    cols = params or {'PAR1': [float(names.index(n)) for n in order]}
+    write_parameters(model_dir, order, cols)
+
+
+def make_cube(names, wav_um, val, unc=None, apertures_au=None, distance_kpc=1., unit=None):
+    """SEDCube; val/unc: (n_models, n_ap, n_wav)"""
+    from sedfitter.sed import SEDCube
+    unit = unit or u.mJy
+    c = SEDCube()
+    c.names = np.array(names)
+    c.distance = distance_kpc * u.kpc
+    c.wav = np.array(wav_um, dtype=float) * u.micron
+    if apertures_au is not None:
+        c.apertures = np.array(apertures_au, dtype=float) * u.au
+    c.val = np.array(val, dtype=float) * unit
+    if unc is not None:
+        c.unc = np.array(unc, dtype=float) * unit
+    return c
+
+
+def write_cube_package(model_dir, names, wav_um, val, unc, apertures_au=None, params=None,
+                       aperture_dependent=None, logd_step=0.02, unit=None):
+    """cube (version 2) package: flux.fits + parameters.fits (same row order as the cube) + models.conf"""
+    if aperture_dependent is None:
+        aperture_dependent = apertures_au is not None and len(apertures_au) > 1
+    write_conf(model_dir, aperture_dependent, logd_step=logd_step, version=2)
+    c = make_cube(names, wav_um, val, unc, apertures_au, unit=unit)
+    c.write(os.path.join(model_dir, 'flux.fits'), overwrite=True)
+    cols = params or {'PAR1': [float(i) for i in range(len(names))]}
+    write_parameters(model_dir, list(names), cols)
+    return c
+
+
+def make_filter(name, central_wav_um, wav_um, response, normalize=True):
+    """Filter object tabulated at wavelengths `wav_um` (any order); nu = c / wav"""
+    from sedfitter.filter import Filter
+    f = Filter()
+    f.name = name
+    f.central_wavelength = central_wav_um * u.micron
+    f.nu = (np.array(wav_um, dtype=float) * u.micron).to(u.Hz, equivalencies=u.spectral())
+    f.response = np.array(response, dtype=float)
+    if normalize:
+        f.normalize()
+    return f
+
+
+def make_fitinfo(names, chi2, av=None, sc=None, flags=(1, 1, 1), source_name='src', model_fluxes=None,
+                 sort=True, meta=None):
+    """FitInfo built directly (bypassing the fitter), sorted by chi2 like Models.fit does"""
+    from sedfitter.fit_info import FitInfo
+    info = FitInfo()
+    nb = len(flags)
+    info.source = make_source(source_name, flags, [1.] * nb, [.1] * nb)
+    n = len(names)
+    info.av = np.array(av if av is not None else np.arange(n), dtype=float)
+    info.sc = np.array(sc if sc is not None else np.arange(n) * 0.1, dtype=float)
+    info.chi2 = np.array(chi2, dtype=float)
+    info.model_name = np.array(names)
+    info.model_fluxes = None if model_fluxes is None else np.array(model_fluxes, dtype=float)
+    if sort:
+        info.sort()
+    else:
+        info.model_id = np.arange(n)
+    if meta is not None:
+        info.meta.model_dir, info.meta.filters, info.meta.extinction_law = meta
+    return info
